@@ -63,14 +63,14 @@ def sig_slug(sig):
 
 
 def write_replay(prop, sig, case, msg):
-    d = os.path.join(env.VERIF, "replays", prop)
+    d = os.path.join(env.OUT, "replays", prop)
     os.makedirs(d, exist_ok=True)
     path = os.path.join(d, sig_slug(sig) + ".json")
     with open(path, "w") as fp:
         json.dump({"property": prop, "signature": sig, "message": msg, "case": case},
                   fp, indent=1, sort_keys=True, default=str)
         fp.write("\n")
-    return os.path.relpath(path, env.VERIF)
+    return os.path.relpath(path, env.OUT)
 
 
 # ---------------------------------------------------------------------------
